@@ -81,7 +81,7 @@ type TxMeta struct {
 	Deploy   bool
 	CKind    int
 	Contract common.Address
-	Skip     bool // precondition of the op not met: no transaction generated
+	Skip     bool             // precondition of the op not met: no transaction generated
 	Touches  []common.Address // addresses an EVM transaction may move value to (recipient, forwarding target)
 }
 
